@@ -135,6 +135,9 @@ func c08(r *h.Result, rng *h.Rng, tier string, replay string) error {
 	if err := c08Text(r, rng.Fork(), n, mgen{extraFns: true, ms: tier != "quick"}); err != nil {
 		return err
 	}
+	if err := c08Chain(r, rng.Fork(), n, mgen{extraFns: true, ms: tier != "quick"}); err != nil {
+		return err
+	}
 	np := 400
 	if tier != "quick" {
 		np = 10000
